@@ -291,6 +291,7 @@ RETURNS = {
     "%s": "pct", "{0}": "brace", "a\nb": "nl", "\u2028": "ls", " ": "space",
 }
 RETURNS.update({t: "named like syntax" for t in SYNTAX_TEXT[:8]})
+RETURNS.update({"caf\u00e9": "NFC name", "\ufeffbom": "name starting with U+FEFF", "Stra\u00dfe": "sharp s"})
 RETURNS["ret/syntax-texts"] = list(SYNTAX_TEXT)
 RETURNS["ret/syntax-dict"] = {t: t for t in SYNTAX_TEXT}
 for _n, _v in RETURNS.items():
@@ -320,6 +321,24 @@ ANSWER_SIDS = {"answers/sid-empty-str": "", "answers/sid-zero": 0, "answers/sid-
 for _k in list(ANSWER_RESULTS) + list(ANSWER_SIDS) + ["answers/suspends"]:
     CUSTOM[_k] = "answers"
 CUSTOM["raises/after-suspension"] = "raises"
+
+# re-entrancy: a handler that awaits NESTED handle_message calls on the same ProtocolHandler, then returns / raises / ...
+NESTED = {
+    "request": {"jsonrpc": "2.0", "id": "nested-id", "method": "ping"},
+    "request-int": {"jsonrpc": "2.0", "id": 424242, "method": "tools/list"},
+    "notification": {"jsonrpc": "2.0", "method": "notifications/cancelled", "params": {"requestId": 1}},
+    "unknown": {"jsonrpc": "2.0", "id": "nested-unknown", "method": "nosuch/nested"},
+    "failing": {"jsonrpc": "2.0", "id": "nested-fail", "method": "custom/raises"},
+    "failing-notification": {"jsonrpc": "2.0", "method": "custom/raises"},
+    "no-method": {"jsonrpc": "2.0", "id": "nested-nomethod", "result": {}},
+    "two": None,  # a request and then a notification
+}
+THEN = {"answers": "answers", "raises": "raises", "nonsense": "nonsense", "silent": "silent"}
+for _n in NESTED:
+    for _t, _b in THEN.items():
+        CUSTOM["reenter/%s/%s" % (_n, _t)] = _b
+CUSTOM["reenter/reregisters/answers"] = "answers"
+TOOLS["reenter/tool"] = (None, "returns")  # filled in by build_server (needs the server)
 
 # server variants: "overrides" re-registers built-in methods through register_method (custom entries win)
 OVERRIDES = {"ping": "answers", "tools/call": "raises", "notifications/initialized": "acks", "resources/list": "silent",
@@ -403,7 +422,8 @@ def build_server(variant=None):
     else:
         srv = MCPServer("verif", "1.0")
     for name, (fn, _) in TOOLS.items():
-        srv.register_tool(name, fn, {"type": "object", "properties": {"text": {"type": "string"}}}, "t")
+        if fn is not None:
+            srv.register_tool(name, fn, {"type": "object", "properties": {"text": {"type": "string"}}}, "t")
     for uri, (fn, _) in RESOURCES.items():
         srv.register_resource(uri, fn, name="r", mime_type="text/plain")
     ph = srv.protocol_handler
@@ -506,6 +526,42 @@ def build_server(variant=None):
     async def c_raises_late(message, session_id):
         await asyncio.sleep(0)
         raise RuntimeError("late failure")
+
+    def reentering(nested, then):
+        async def h(message, session_id):
+            from chuk_mcp.protocol.messages.json_rpc_message import JSONRPCMessage as Legacy
+
+            msgs = [NESTED["request"], NESTED["notification"]] if NESTED[nested] is None else [NESTED[nested]]
+            for nm in msgs:
+                await ph.handle_message(Legacy.model_validate(dict(nm)), session_id)
+            if then == "answers":
+                return ph.create_response(message.id, {"after": nested}), None
+            if then == "raises":
+                raise RuntimeError("failed after the nested dispatch")
+            if then == "nonsense":
+                return 7
+            return None, None
+        return h
+
+    for n in NESTED:
+        for t in THEN:
+            table["reenter/%s/%s" % (n, t)] = reentering(n, t)
+
+    async def c_reregisters(message, session_id):
+        ph.register_method("custom/answers", c_answers)
+        ph.register_method("reenter/reregisters/answers", c_reregisters)
+        return ph.create_response(message.id, {"ok": True}), None
+
+    table["reenter/reregisters/answers"] = c_reregisters
+
+    async def t_reenter(text="d"):
+        from chuk_mcp.protocol.messages.json_rpc_message import JSONRPCMessage as Legacy
+
+        await ph.handle_message(Legacy.model_validate(dict(NESTED["request"])), None)
+        await ph.handle_message(Legacy.model_validate(dict(NESTED["notification"])), None)
+        return "after nested dispatches"
+
+    srv.register_tool("reenter/tool", t_reenter, {}, "t")
 
     for k, v in ANSWER_RESULTS.items():
         table[k] = answering(v)
@@ -621,9 +677,14 @@ def debug_logging():
     Returns the function that restores the previous state."""
     import logging
 
+    import io
+
     root = logging.getLogger()
     prev_disable, prev_level, prev_handlers = root.manager.disable, root.level, list(root.handlers)
-    root.handlers[:] = [logging.NullHandler()]
+    # a real handler: it FORMATS every record (message % args, asctime, exception text) and writes it to a sink
+    h = logging.StreamHandler(io.StringIO())
+    h.setFormatter(logging.Formatter("%(asctime)s %(name)s %(levelname)s %(message)s"))
+    root.handlers[:] = [h]
     root.setLevel(logging.DEBUG)
     logging.disable(logging.NOTSET)
 
@@ -673,17 +734,24 @@ def _run_case(case):
         o = dispatch_one(server(variant), case["msg"], case.get("env", "legacy"), case.get("sid"))
         o.pop("sid_value", None)
         return o
-    srv = server(variant, fresh=True)
-    cache, last_sid, steps = {}, None, []
-    for st in case["seq"]:
-        sid = st.get("sid")
-        if sid == "$last":
-            sid = last_sid
-        o = dispatch_one(srv, st["msg"], st.get("env", "legacy"), sid, cache, st.get("reuse", False))
-        if o.get("sid_value"):
-            last_sid = o["sid_value"]
-        o.pop("sid_value", None)
-        steps.append(o)
+    # the session store's clock is ours: a step may let hours (or years) pass, or put the clock back, before its message
+    from .session_h import Clock, patched_clock
+
+    clock = Clock()
+    clock.now = 1_700_000_000
+    with patched_clock(clock):
+        srv = server(variant, fresh=True)
+        cache, last_sid, steps = {}, None, []
+        for st in case["seq"]:
+            clock.now += st.get("advance", 0)
+            sid = st.get("sid")
+            if sid == "$last":
+                sid = last_sid
+            o = dispatch_one(srv, st["msg"], st.get("env", "legacy"), sid, cache, st.get("reuse", False))
+            if o.get("sid_value"):
+                last_sid = o["sid_value"]
+            o.pop("sid_value", None)
+            steps.append(o)
     return {"steps": steps}
 
 
@@ -734,8 +802,19 @@ def model_line(case, obs):
     params = case["msg"].get("params")
     if sid is not None and custom_table(case.get("server")).get(obs.get("seen_method")) in UNFAITHFUL_FOR_MODEL:
         return None  # a request to a handler that answers with a response of its own making: outside the statements
+    # only the table entries this message can reach are sent (the model looks up nothing else)
+    full = SERVER_SPECS[case.get("server")]
+    name = params.get("name") if isinstance(params, dict) else None
+    uri = params.get("uri") if isinstance(params, dict) else None
+    me = obs.get("seen_method")
+    spec = {
+        "tools": {name: full["tools"][name]} if isinstance(name, str) and name in full["tools"] else {},
+        "resources": {uri: full["resources"][uri]} if isinstance(uri, str) and uri in full["resources"] else {},
+        "custom": {me: full["custom"][me]} if isinstance(me, str) and me in full["custom"] else {},
+        "nextSid": full["nextSid"],
+    }
     return {
-        "m": "dispatch", "server": SERVER_SPECS[case.get("server")],
+        "m": "dispatch", "server": spec,
         "msg": {"id": idj, "method": obs.get("seen_method"), "name": _key(params, "name"), "uri": _key(params, "uri"),
                 "argsOk": args_ok(params)},
     }
